@@ -177,3 +177,56 @@ func VerifC28_multi() {
 	}
 	verifReach("returned")
 }
+
+// VerifC28_clusterMulti: cluster batches and the retry policy. The node answers LOADING (or drops
+// the connection) for a number of rounds; the caller's RetryDelay allows a number of retries and
+// then says stop (negative delay). The batch is re-sent only while the policy allows it.
+func VerifC28_clusterMulti() {
+	allow := verifChoose(3) // retries the policy allows: 0, 1, 2
+	asked := 0
+	rt := newRetryer(func(attempts int, cmd Completed, err error) time.Duration {
+		asked++
+		if attempts <= allow {
+			return 0
+		}
+		return -1
+	})
+	node := &verifStubConn{addr: "a:1"}
+	rounds := 0
+	failRounds := verifChoose(5) // the node fails this many rounds before it answers
+	failKind := verifChoose(2)
+	node.doMulti = func(ctx context.Context, m []Completed) []RedisResult {
+		rounds++
+		rs := make([]RedisResult, len(m))
+		for i := range rs {
+			switch {
+			case rounds > failRounds:
+				rs[i] = NewResult(strmsg(typeSimpleString, "OK"), nil)
+			case failKind == 0:
+				rs[i] = verifErrReply("LOADING Redis is loading the dataset in memory")
+			default:
+				rs[i] = NewErrorResult(verifErrPage)
+			}
+		}
+		return rs
+	}
+	opt := &ClientOption{}
+	c := &clusterClient{cmd: cmds.NewBuilder(cmds.InitSlot), opt: opt, conns: map[string]connrole{"a:1": {conn: node}},
+		connFn: func(addr string, _ *ClientOption) conn { return node },
+		retry:  true, retryHandler: rt, stopCh: make(chan struct{})}
+	bd := c.B()
+	multi := []Completed{bd.Get().Key("{s}1").Build().Pin(), bd.Get().Key("{s}2").Build().Pin()}
+	for _, m := range multi {
+		c.wslots[m.Slot()] = node
+	}
+	resps := c.DoMulti(context.Background(), multi...)
+	verifAssert(len(resps) == 2, "one result per command")
+	verifAssert(rounds <= allow+1, "the batch is re-sent only while RetryDelay returns a non-negative delay")
+	if failRounds <= allow {
+		verifAssert(rounds == failRounds+1 && resps[0].Error() == nil, "allowed retries are made until the node answers")
+		verifReach("recovered")
+	} else {
+		verifAssert(resps[0].Error() != nil, "when the policy says stop the last failure is returned")
+		verifReach("gaveup")
+	}
+}
